@@ -71,7 +71,7 @@ def emit_cases():
         U = draw(spec.universes(max_classes=3))
         style = draw(st.sampled_from(["wrapped", "wrapped", "wrapped", "out_bare"]))
         m = draw(spec.methods(U, name="m0", styles=(style,)))
-        vg = values.ValueGen(U, special_floats=False)
+        vg = values.ValueGen(U, special_floats=False, nil_items=True)
         return {"part": "emit", "U": U, "m": m,
                 "args": [draw(vg.value(t)) for _, t in m["args"]],
                 # the body element of a bare response cannot be absent or nil
